@@ -10,7 +10,6 @@ import (
 	"net/netip"
 	"slices"
 	"strconv"
-	"sync"
 	"sync/atomic"
 	"time"
 
@@ -28,7 +27,7 @@ var ErrBadDetailsVpnAddr = errors.New("invalid packet, malformed detailsVpnAddr"
 
 type LightHouse struct {
 	//TODO: We need a timer wheel to kick out vpnAddrs that haven't reported in a long time
-	sync.RWMutex //Because we concurrently read and write to our maps
+	verifRWMutex //Because we concurrently read and write to our maps
 	ctx          context.Context
 	amLighthouse bool
 
